@@ -413,6 +413,8 @@ def run(ctx, res):
     n = producers(prog, res)
     source_shape_is_cameras(prog, res)
     commit_only_filled(prog, res)
+    from .c10 import commit_own
+    res.guard(commit_own, prog, res, prog.func("process_data"), "R-PRODUCER")
     consumers(prog, res)
     res.guard(iterators, prog, res)
     bytes_of_type_table(prog, res)
